@@ -318,3 +318,31 @@ CHECKS["C01"]["rule"] += ("; CLI form (c01cli): the shipped binary stdin -> stdo
                          "path (a verbatim last line of several KiB without terminator, 80 KB without a line break, long statements, empty and "
                          "one-character inputs) behind no BOM, a UTF-8, a UTF-16LE and a UTF-16BE byte order mark: the decoded output has the same "
                          "non-blank characters, ignoring ASCII case")
+
+# ---- additions of round 4
+CHECKS["C02"]["rule"] += ("; a line comment x six line ends (LF, CRLF, lone CR, CR CR LF, CR blank LF, CR blanks) x eight successors (comments of every "
+                         "kind, code, a literal, a directive, a toggle) x three places")
+CHECKS["C04"]["rule"] += ("; the identifier word family (length x alignment x special character at every position) and 135 no-solution lines filled with "
+                         "2-, 3- and 4-byte characters at every byte phase (the wrapper's fall-back logs the line; the in-process logger formats it); "
+                         "own-line `// pasfmt off` / `on` pairs at every pair of statement-level positions of the d<=2 programs")
+CHECKS["C05"]["rule"] += "; bodies of 6 000 (thorough up to 20 000) statements; case arms holding multi-line literals inside the deep-nesting family"
+CHECKS["C06"]["rule"] += "; ten statements that are partly inside disabled regions (all 2^g assignments of the formatted gaps); programs that start with conditional directives"
+CHECKS["C07"]["rule"] += "; a closing toggle as the last token of the file followed by five non-canonical file ends, judged with the end-of-file clause"
+CHECKS["C08"]["rule"] += ("; trailing line comments in every gap of the d<=2 programs with an oddly indented next line; a disabled region from every "
+                         "statement-level position to a closing toggle that is the last token, with five file ends")
+CHECKS["C09"]["rule"] += ("; one or two mis-indented multi-line literals with something behind the closing quotes, at every wrap_column of a range, "
+                         "LF and CRLF input")
+CHECKS["C10"]["rule"] += "; the linear clause also over continuation_indents up to 255 with hard tabs; 270 / 300 nested blocks under tab_width 255"
+CHECKS["C11"]["rule"] += ("; two hard-tab configurations; five single logical lines of 3 000 (thorough 6 000) elements at ten widths; "
+                         "thorough: every width 8..140")
+CHECKS["C12"]["rule"] += "; closing-line indentations made of NBSP / U+2003 (not blanks: the literal must stay verbatim)"
+CHECKS["C13"]["rule"] += "; 560 conditional directives whose expression hides the closing bracket"
+CHECKS["C14"]["rule"] += "; directive ladders, nests and in-expression ladders of 1..100, 150 and 300 branches"
+CHECKS["C15"]["rule"] += "; six single tokens of 70 000 bytes with every character boundary as a cursor (all at once)"
+CHECKS["C16"]["rule"] += ("; six file names with glob / shell / option characters; directories of exactly 256 and 512 failing files; --files-from lists "
+                         "with a non-UTF-8 entry, CRLF, blank lines, no final terminator; a verbatim unterminated last line of 8 KB")
+CHECKS["C17"]["rule"] += ("; U+FEFF / U+FFFD / U+FFFE as ordinary text behind every BOM (reference: in-process formatter); raw non-canonical "
+                         "ISO-2022-JP input; a BOM that arrives on standard input in two pieces")
+CHECKS["C18"]["rule"] += ("; a fourth controlled family under wrap_column=60, format_multiline_strings=false over two same-shape programs with "
+                         "different child lines; c18free: a mode-000 file with the binary run as uid 65534, 150 / 600 files under RLIMIT_NOFILE=64")
+CHECKS["C19"]["rule"] += "; configuration files that are not valid UTF-8, in both file sources"
